@@ -465,7 +465,7 @@ func (g *gen) unknownStep(m *Message) {
 	g.p("\t\tvhFill_%s(x)", n)
 	g.p("\t}")
 	g.p("\tif vhChoice(\"preunk\", 2) == 1 {")
-	g.p("\t\tx.unknownFields = vhUnknownG_%s(\"pre\")", n)
+	g.p("\t\tx.unknownFields = vhBytes(\"pre\", 6) // earlier unknown records: arbitrary bytes, only ever appended to")
 	g.p("\t}")
 	g.p("\texp := vhClone_%s(x)", n)
 	g.p("\trec := vhUnknownG_%s(\"u\")", n)
@@ -568,7 +568,7 @@ func (g *gen) unknownStep(m *Message) {
 	g.p("func VH_C14_%s_reencode() {", n)
 	g.p("\tx := &%s{}", n)
 	g.p("\tvhFill_%s(x)", n)
-	g.p("\tunk := vhUnknownG_%s(\"u\")", n)
+	g.p("\tunk := vhBytes(\"u\", 12) // marshal copies the stored bytes verbatim: content is arbitrary")
 	g.p("\tx.unknownFields = unk")
 	g.p("\tmsg := x.ProtoReflect()")
 	g.p("\tout, err := msg.ProtoMethods().Marshal(protoiface.MarshalInput{Message: msg, Flags: vhFlags(\"det\")})")
